@@ -140,6 +140,7 @@ type frame struct {
 	panicking        bool
 	panicv           interface{}
 	visits           map[*ssa.BasicBlock]int
+	symVisits        map[*ssa.If]int
 }
 
 type deferred struct {
@@ -375,7 +376,19 @@ func (e *Engine) visit(fr *frame, instr ssa.Instruction) (jump bool, ret bool) {
 		e.storeAt(fr.get(instr.Addr), fr.get(instr.Val))
 	case *ssa.If:
 		succ := 1
-		if e.asBool(fr.get(instr.Cond)) {
+		cond := fr.get(instr.Cond).(*Term)
+		if !cond.K && !e.initMode {
+			// the unwinding bound applies to loops (and repeated decisions) controlled by symbolic values;
+			// loops with a concrete trip count cannot hide behaviour and are only guarded against runaway
+			if fr.symVisits == nil {
+				fr.symVisits = map[*ssa.If]int{}
+			}
+			fr.symVisits[instr]++
+			if fr.symVisits[instr] > e.Unwind {
+				panic(pathAbort{"unwind: " + fr.fn.String()})
+			}
+		}
+		if e.Branch(cond) {
 			succ = 0
 		}
 		fr.prevBlock, fr.block = fr.block, fr.block.Succs[succ]
@@ -987,8 +1000,8 @@ func (e *Engine) run(fr *frame) {
 				fr.visits = map[*ssa.BasicBlock]int{}
 			}
 			fr.visits[fr.block]++
-			if fr.visits[fr.block] > e.Unwind {
-				panic(pathAbort{"unwind: " + fr.fn.String()})
+			if fr.visits[fr.block] > 300000 {
+				panic(pathAbort{"unwind: runaway concrete loop in " + fr.fn.String()})
 			}
 		}
 		// phis
